@@ -32,3 +32,42 @@ Theorem C15_hevc_slice_partial : forall spsmap ppsmap sp pp v,
   hparse_slice_br spsmap ppsmap (hnalu_slice sp pp v) = Ok (expected_hslice sp pp v).
 Proof. exact hevc_slice_sz. Qed.
 Print Assumptions C15_hevc_slice_partial.
+
+(* known finding C15-F11: an inter-predicted set selected from the SPS contributes 0 to the parser's
+   NumPicTotalCurr, so ref_pic_lists_modification() is skipped *)
+Theorem C15_hevc_slice_rps_refuted :
+  exists sp pp v,
+    hsps_valid sp = true /\ hpps_valid pp = true /\ hslice_valid sp pp v = true
+    /\ hparse_slice_br (fun id => if id =? sx_sps_seq_parameter_set_id sp then Some (expected_hsps sp) else None)
+                       (fun id => if id =? sx_pps_pic_parameter_set_id pp then Some (expected_hpps pp) else None)
+                       (hnalu_slice sp pp v)
+       <> Ok (expected_hslice sp pp v).
+Proof. exact hevc_slice_rps_refuted. Qed.
+Print Assumptions C15_hevc_slice_rps_refuted.
+
+(* a B slice, non-first segment of a 960x540 picture with 64x64 CTBs (8 address bits), RPS coded in the
+   slice and inter-predicted (guard holds: lists_modification_present_flag = 0), long-term entries,
+   pred weight table, entry points, header extension; maps with other entries, pps id 5 != sps id 2 *)
+Example C15_hevc_slice_hyp_b :
+  hsps_valid ex_hsps = true /\ hpps_valid ex_hpps_b = true
+  /\ hslice_valid ex_hsps ex_hpps_b ex_hslice_b = true /\ hslice_rps_guard ex_hsps ex_hpps_b ex_hslice_b = true
+  /\ ex_ppsmap (sx_slice_pic_parameter_set_id ex_hslice_b) = Some (expected_hpps ex_hpps_b)
+  /\ ex_spsmap (sx_pps_seq_parameter_set_id ex_hpps_b) = Some (expected_hsps ex_hsps)
+  /\ hparse_slice_br ex_spsmap ex_ppsmap (hnalu_slice ex_hsps ex_hpps_b ex_hslice_b)
+     = Ok (expected_hslice ex_hsps ex_hpps_b ex_hslice_b)
+  /\ hs_address_bits ex_hsps = 8
+  /\ s_address (expected_hslice ex_hsps ex_hpps_b ex_hslice_b) = 77
+  /\ rps_ndelta (s_st_rps (expected_hslice ex_hsps ex_hpps_b ex_hslice_b)) = 3
+  /\ lenN (s_lt (expected_hslice ex_hsps ex_hpps_b ex_hslice_b)) = 2
+  /\ s_entry_points (expected_hslice ex_hsps ex_hpps_b ex_hslice_b) = [100; 1000]
+  /\ s_size (expected_hslice ex_hsps ex_hpps_b ex_hslice_b) = 43.
+Proof. vm_compute. repeat split; reflexivity. Qed.
+
+(* a P slice with an explicit RPS coded in the slice and ref_pic_lists_modification (guard holds) *)
+Example C15_hevc_slice_hyp_e :
+  hslice_valid ex_hsps ex_hpps_e ex_hslice_e = true /\ hslice_rps_guard ex_hsps ex_hpps_e ex_hslice_e = true
+  /\ sx_lists_modification_present_flag ex_hpps_e = true
+  /\ hparse_slice_br ex_spsmap ex_ppsmap (hnalu_slice ex_hsps ex_hpps_e ex_hslice_e)
+     = Ok (expected_hslice ex_hsps ex_hpps_e ex_hslice_e)
+  /\ s_rplm (expected_hslice ex_hsps ex_hpps_e ex_hslice_e) = Some (true, [2; 0], false, []).
+Proof. vm_compute. repeat split; reflexivity. Qed.
